@@ -29,8 +29,9 @@ func VerifC09_Propagation() {
 		w.entryFor(url1).CRLStore.Close()
 	case 2: // record corrupted
 		d := verifrt.Disk[filepath.Join("/work", "h-h-"+url1)]
+		garbage := [][]byte{{}, {0x30}, {0xEE}}[verifrt.Choose(3)]
 		for i := range d.KV {
-			d.KV[i].V = []byte{0x30}
+			d.KV[i].V = garbage
 		}
 	}
 	withLoc := verifrt.Choose(2) == 1
